@@ -51,47 +51,70 @@ def _guard(where, n, atoms):
     _fail(where, n, "unsupported guard")
 
 
-CONDS_BLOCK = [
-    "tmp_solver = create_solver(ctx=Context())",
-    "for cond in self.conditions:\n    cond_copied = cond.translate(tmp_solver.ctx)\n    if args.cache_solver:\n        tmp_solver.assert_and_track(cond_copied, str(cond.get_id()))\n    else:\n        tmp_solver.add(cond_copied)",
-    "query = tmp_solver.to_smt2()",
-    "tmp_solver.reset()",
-]
-SOLVER_BLOCK = ["query = self.solver.to_smt2()"]
+ID = r"[A-Za-z_][A-Za-z_0-9]*"
 
 
-def _query_block(where, stmts, atoms):
-    """statements that bind `query` -> Gallina term of type qsrc"""
+def _is_conds_block(srcs, q):
+    """the loop that asserts every key of self.conditions into a fresh solver and serialises it
+    (local names are free, `q` is the name the query text is bound to)"""
+    import re
+
+    if len(srcs) not in (3, 4):
+        return False
+    m = re.fullmatch(rf"({ID}) = create_solver\(ctx=Context\(\)\)", srcs[0])
+    if not m:
+        return False
+    x = m.group(1)
+    m = re.fullmatch(rf"for ({ID}) in self\.conditions:\n    ({ID}) = \1\.translate\({x}\.ctx\)\n    if args\.cache_solver:\n"
+                     rf"        {x}\.assert_and_track\(\2, str\(\1\.get_id\(\)\)\)\n    else:\n        {x}\.add\(\2\)", srcs[1])
+    if not m or len({x, m.group(1), m.group(2), q}) != 4:
+        return False
+    if srcs[2] != f"{q} = {x}.to_smt2()":
+        return False
+    return len(srcs) == 3 or srcs[3] == f"{x}.reset()"
+
+
+def _query_block(where, stmts, atoms, q):
+    """statements that bind the query text -> Gallina term of type qsrc"""
     srcs = [_src(s) for s in stmts]
-    if srcs == CONDS_BLOCK:
+    if _is_conds_block(srcs, q):
         return "SrcConditions"
-    if srcs == SOLVER_BLOCK:
+    if srcs == [f"{q} = self.solver.to_smt2()"]:
         return "SrcSolver"
     if len(stmts) == 1 and isinstance(stmts[0], ast.If):
         st = stmts[0]
         if not st.orelse:
-            _fail(where, st, "a guard without else leaves `query` unbound")
+            _fail(where, st, "a guard without else leaves the query unbound")
         g = _guard(where, st.test, atoms)
-        return f"(if {g} then {_query_block(where, st.body, atoms)} else {_query_block(where, st.orelse, atoms)})"
+        return f"(if {g} then {_query_block(where, st.body, atoms, q)} else {_query_block(where, st.orelse, atoms, q)})"
     _fail(where, stmts[0] if stmts else ast.Pass(), "unexpected way of building the query")
 
 
 def _tr_to_smt2(fn):
+    import re
+
     where = "Path.to_smt2"
-    if [a.arg for a in fn.args.args] != ["self", "args"] or fn.decorator_list:
+    if len(fn.args.args) != 2 or fn.args.args[0].arg != "self" or fn.decorator_list:
         raise TranslateError(f"{where}: unexpected signature")
+    an = fn.args.args[1].arg
     body = strip_docstring(fn.body)
     if len(body) < 4:
         raise TranslateError(f"{where}: too short")
-    if _src(body[0]) != "ids = [str(cond.get_id()) for cond in self.conditions]":
-        _fail(where, body[0], "expected ids = [str(cond.get_id()) for cond in self.conditions]")
-    if _src(body[-2]) != "query = query.replace('(check-sat)', '')":
-        _fail(where, body[-2], "expected query = query.replace('(check-sat)', '')")
-    if _src(body[-1]) != "return SMTQuery(query, ids)":
-        _fail(where, body[-1], "expected return SMTQuery(query, ids)")
+    m = re.fullmatch(rf"({ID}) = \[str\(({ID})\.get_id\(\)\) for \2 in self\.conditions\]", _src(body[0]))
+    if not m:
+        _fail(where, body[0], "expected <ids> = [str(c.get_id()) for c in self.conditions]")
+    ids = m.group(1)
+    m = re.fullmatch(rf"return SMTQuery\(({ID}), {ids}\)", _src(body[-1]))
+    if not m:
+        _fail(where, body[-1], "expected return SMTQuery(<query>, <ids>)")
+    q = m.group(1)
+    if _src(body[-2]) != f"{q} = {q}.replace('(check-sat)', '')":
+        _fail(where, body[-2], "expected <query> = <query>.replace('(check-sat)', '')")
+    if an != "args":
+        raise TranslateError(f"{where}: the configuration parameter is not called args")
     atoms = {"args.cache_solver": "cache_solver", "self.sliced is None": "sliced_none",
-             "self.sliced is not None": "(negb sliced_none)"}
-    return _query_block(where, body[1:-2], atoms)
+             "self.sliced is not None": "(negb sliced_none)", "not args.cache_solver": "(negb cache_solver)"}
+    return _query_block(where, body[1:-2], atoms, q)
 
 
 EXTEND_COPY = [
@@ -101,8 +124,8 @@ EXTEND_COPY = [
     "self.var_to_conds = deepcopy(path.var_to_conds)",
     "self.term_to_vars = path.term_to_vars",
 ]
-ADD_ALL = "for cond in self.conditions:\n    self.solver.add(cond)"
-ADD_SLICED = "for idx, cond in enumerate(self.conditions):\n    if idx in path.sliced:\n        self.solver.add(cond)"
+ADD_ALL = rf"for ({ID}) in self\.conditions:\n    self\.solver\.add\(\1\)"
+ADD_SLICED = rf"for ({ID}), ({ID}) in enumerate\(self\.conditions\):\n    if \1 in path\.sliced:\n        self\.solver\.add\(\2\)"
 
 
 def _adds(where, stmts, atoms):
@@ -110,10 +133,12 @@ def _adds(where, stmts, atoms):
     stmts = list(stmts)
     if stmts and isinstance(stmts[-1], ast.Return) and stmts[-1].value is None:
         stmts = stmts[:-1]
+    import re
+
     srcs = [_src(s) for s in stmts]
-    if srcs == [ADD_ALL]:
+    if len(srcs) == 1 and re.fullmatch(ADD_ALL, srcs[0]):
         return "AddAll"
-    if srcs == [ADD_SLICED]:
+    if len(srcs) == 1 and re.fullmatch(ADD_SLICED, srcs[0]):
         return "AddSliced"
     if stmts and isinstance(stmts[0], ast.If):
         st = stmts[0]
